@@ -358,7 +358,7 @@ def assign_member_tags(draw, ctx, t):
     nums = list(range(len(mem)))
     if draw(st.integers(0, 3)) == 0:
         extra = draw(st.lists(st.sampled_from(TAG_BOUNDARY), min_size=len(mem), max_size=len(mem), unique=True))
-        nums = extra
+        nums = sorted(extra)     # ascending: keeps extension additions in canonical tag order (X.680 29.x)
     for m, n in zip(mem, nums):
         modes = [None, "EXPLICIT"] if _chain_empty(ctx, _strip_tag(m.type)) else [None, None, "EXPLICIT", "IMPLICIT"]
         base = _strip_tag(m.type)
@@ -637,3 +637,100 @@ def _struct_values(draw, mod, rt, cfg, depth, max_len):
             # a value different from the default is drawn below; equal values are fine too
         v[m.name] = draw(values(mod, m.type, cfg, depth + 1, max_len))
     return v
+
+
+# ------------------------------------------------------------------ boundary catalogue (systematic, not random)
+def catalogue():
+    """Modules that walk the boundaries named in DESIGN.md C02 systematically."""
+    mods = []
+    # 1. INTEGER ranges at every width boundary, both anchors
+    ts = []
+    i = 0
+    for k in (1, 2, 7, 8, 9, 15, 16, 17, 24, 31, 32, 33, 63):
+        for lo in (0, 1, -1, -(1 << (k - 1)) if k > 1 else -1):
+            for d in (-1, 0, 1):
+                hi = lo + (1 << k) - 1 + d
+                if hi < lo or hi > I64_MAX or lo < I64_MIN:
+                    continue
+                ts.append(("I%d" % i, T("INTEGER", cons=Cons("value", [(lo, hi)]))))
+                i += 1
+    for lo, hi in ((0, 65535), (0, 65536), (1, 65536), (0, 65537), (-32768, 32767), (-32769, 32767), (0, 4294967295),
+                   (0, 4294967296), (-2147483648, 2147483647), (-2147483649, 2147483647), (0, I64_MAX),
+                   (I64_MIN, I64_MAX), (255, 255), (-128, 127), (-129, 127), (0, 255), (0, 256), (5, 5)):
+        ts.append(("I%d" % i, T("INTEGER", cons=Cons("value", [(lo, hi)]))))
+        i += 1
+    for lo in (0, 1, -1, 127, 128, 256, -128, -129, 65536):
+        ts.append(("I%d" % i, T("INTEGER", cons=Cons("value", [(lo, None)]))))
+        i += 1
+        ts.append(("I%d" % i, T("INTEGER", cons=Cons("value", [(None, lo)]))))
+        i += 1
+        ts.append(("I%d" % i, T("INTEGER", cons=Cons("value", [(lo, lo + 300)], True))))
+        i += 1
+    for chunk in range(0, len(ts), 40):
+        mods.append(Module("CatInt%d" % (chunk // 40), "AUTOMATIC", ts[chunk:chunk + 40]))
+    # 2. tags: every boundary number in every class, implicit and explicit, on primitive and constructed types
+    ts = []
+    i = 0
+    for num in TAG_BOUNDARY:
+        for cls in ("CONTEXT", "APPLICATION", "PRIVATE"):
+            if cls == "PRIVATE" and 2040 <= num <= 2047:
+                continue
+            for mode in ("IMPLICIT", "EXPLICIT"):
+                ts.append(("G%d" % i, T("INTEGER", tag=(cls, num, mode))))
+                i += 1
+            other = num + 1 if num < (1 << 30) - 1 else num - 1      # 2^30-1 is the largest supported tag number
+            ts.append(("G%d" % i, T("CHOICE", members=[Member("a", T("BOOLEAN", tag=(cls, num, "IMPLICIT"))),
+                                                        Member("b", T("NULL", tag=(cls, other, "EXPLICIT")))])))
+            i += 1
+    for chunk in range(0, len(ts), 40):
+        mods.append(Module("CatTag%d" % (chunk // 40), "EXPLICIT", ts[chunk:chunk + 40]))
+    # 3. sizes and alphabets
+    ts = []
+    i = 0
+    sizes = [(0, 0), (1, 1), (2, 2), (3, 3), (16, 16), (17, 17), (0, 1), (0, 127), (0, 128), (1, 128), (0, 255), (0, 256),
+             (0, 65535), (0, 65536), (1, 65536), (65535, 65535), (65536, 65536), (3, None), (0, None)]
+    for lo, hi in sizes:
+        for kind in ("OCTETSTRING", "BITSTRING", "IA5String", "BMPString", "UTF8String"):
+            ts.append(("S%d" % i, T(kind, size=Cons("size", [(lo, hi)]))))
+            i += 1
+        ts.append(("S%d" % i, T("SEQOF", elem=T("BOOLEAN"), size=Cons("size", [(lo, hi)]))))
+        i += 1
+        ts.append(("S%d" % i, T("OCTETSTRING", size=Cons("size", [(lo, hi)], True))))
+        i += 1
+    for n in (1, 2, 3, 4, 5, 8, 9, 16, 17, 32, 33, 64):
+        cps = [0x30 + j for j in range(n)]
+        ts.append(("S%d" % i, T("IA5String", alpha=Cons("from", [(cps[0], cps[-1])]))))
+        i += 1
+        ts.append(("S%d" % i, T("VisibleString", alpha=Cons("from", [(c, c) for c in cps[::2]] + [(0x7e, 0x7e)]))))
+        i += 1
+        ts.append(("S%d" % i, T("BMPString", alpha=Cons("from", [(1, n)]), size=Cons("size", [(0, 10)]))))
+        i += 1
+        ts.append(("S%d" % i, T("UniversalString", alpha=Cons("from", [(0x41, 0x41 + n - 1)]))))
+        i += 1
+    def huge(t):
+        return any(c is not None and any((hi or 0) >= 65535 or (lo or 0) >= 65535 for lo, hi in c.ranges) for c in (t.size,))
+    hs = [(n, t) for n, t in ts if huge(t)]
+    ts = [(n, t) for n, t in ts if not huge(t)]
+    for chunk in range(0, len(ts), 40):
+        mods.append(Module("CatSize%d" % (chunk // 40), "AUTOMATIC", ts[chunk:chunk + 40]))
+    for chunk in range(0, len(hs), 6):
+        # 64K values are expensive to ship: few values per type, many small modules (parallelism)
+        mods.append(Module("CatHuge%d" % (chunk // 6), "AUTOMATIC", hs[chunk:chunk + 6]))
+    # 4. big enumerations, many alternatives / additions
+    ts = []
+    ts.append(("E0", T("ENUMERATED", named=[("v%d" % j, j) for j in range(130)], flags={"bare": True})))
+    ts.append(("E1", T("ENUMERATED", named=[("v%d" % j, j * 3 - 200) for j in range(140)])))
+    ts.append(("E2", T("ENUMERATED", named=[("a", 0), ("b", 1)], ext=True,
+                       ext_named=[("x%d" % j, 2 + j) for j in range(70)], flags={"bare": True})))
+    ts.append(("E3", T("ENUMERATED", named=[("a", 127), ("b", 128), ("c", 32767), ("d", 32768), ("e", -32769)])))
+    ts.append(("C0", T("CHOICE", members=[Member("r", T("NULL"))] +
+                       [Member("x%d" % j, T("INTEGER", cons=Cons("value", [(0, 7)])), ext=True) for j in range(70)], ext=True)))
+    ts.append(("C1", T("CHOICE", members=[Member("m%d" % j, T("BOOLEAN")) for j in range(40)])))
+    ts.append(("Q0", T("SEQUENCE", members=[Member("r", T("BOOLEAN"))] +
+                       [Member("x%d" % j, T("INTEGER", cons=Cons("value", [(0, 7)])), optional=True, ext=True)
+                        for j in range(70)], ext=True)))
+    ts.append(("Q1", T("SEQUENCE", members=[Member("m%d" % j, T("BOOLEAN"), optional=True) for j in range(20)])))
+    ts.append(("Q2", T("SEQUENCE", members=[Member("m%d" % j, T("INTEGER"), has_default=True, default=j, default_text=str(j))
+                                            for j in range(9)])))
+    mods.append(Module("CatBig", "AUTOMATIC", ts))
+    return mods
